@@ -107,6 +107,14 @@ def run_config(ctx, case, npts=None):
     ctx.api(f"{name}.backward")
     try:
         y = np.asarray(call(t.forward, x.copy()), dtype=float)
+        # the arrays the parameters were assigned from are the caller's: it overwrites
+        # them before going on (nothing changes for the transform)
+        for arr in tr.CALLER_ARRAYS.pop(id(t), []):
+            ctx.tag("caller-reuses-parameter-array")
+            arr += 0.37
+            arr[...] = arr[::-1].copy()
+        if len(tr.CALLER_ARRAYS) > 1000:
+            tr.CALLER_ARRAYS.clear()
         xb = np.asarray(call(t.backward, y.copy()), dtype=float)
         yb = np.asarray(call(t.forward, xb.copy()), dtype=float)
     except Exception as e:
